@@ -14,7 +14,7 @@
    every implementation trace together with P_C02. *)
 From Coq Require Import ZArith List Bool Arith.
 Import ListNotations.
-From MV Require Import Time.Spec Sched.Timing Sched.Inv Sched.Init Sched.Wle Sched.Main Sched.Guards Sched.Strict Sched.Final Sched.Live Sched.Progress Sched.Quiet Sched.NoLost Static.Groups Static.Connect Static.Build Sched.Plane Sched.Link Sched.Certify Sched.GenView Gen.SchedulerFns Sched.SchedTie.
+From MV Require Import Time.Spec Sched.Timing Sched.Inv Sched.Init Sched.Wle Sched.Main Sched.Guards Sched.Strict Sched.Final Sched.Live Sched.Progress Sched.Quiet Sched.NoLost Static.Groups Static.Connect Static.Build Sched.Plane Sched.Link Sched.Certify Sched.GenView Gen.SchedulerFns Sched.SchedTie Sched.SetupTie.
 Open Scope Z_scope.
 
 Theorem C02_partial_begin_is_progress : forall st, static_ok st -> forall s i t m s',
@@ -91,3 +91,20 @@ Theorem C02_generated_schedule_step_is_the_model : forall s i t,
   if memT t (nexts x) then s else upd s i (mkSim (pc x) (prog x) (fst r) (cur x) (last x) (snd r)).
 Proof. exact tie_schedule_step. Qed.
 Print Assumptions C02_generated_schedule_step_is_the_model.
+
+(* tie to the source: the queue a simulator starts the run with.  SimRunner.__init__ (one step at time zero unless the
+   simulator is event-based) and World.set_initial_event (the queue is REPLACED by the one event, at the world time of the
+   simulator's depth), regenerated on every run, give the model's initial_nexts: of several calls naming one simulator the
+   last decides, and a repeated time is one step *)
+Theorem C02_generated_initial_queue_is_the_model : forall sc i, (1 <= sim_depth sc i)%nat ->
+  initial_nexts sc i =
+  fold_left (fun q (e : nat * Z) => if Nat.eqb (fst e) i
+                                     then set_initial_event (runner_from_world_time (sim_depth sc i)) q (snd e) else q)
+            (sc_init sc)
+            (runner_next_steps (match sc_type sc i with EventBased => true | _ => false end) (sim_depth sc i)).
+Proof. exact tie_initial_nexts. Qed.
+Print Assumptions C02_generated_initial_queue_is_the_model.
+Theorem C02_generated_initial_state_is_the_model : forall st i,
+  init_state st i = mkSim NotStarted (runner_progress (depth st i)) (init_nexts st i) None (runner_last_step (depth st i)) false.
+Proof. exact tie_initial_state. Qed.
+Print Assumptions C02_generated_initial_state_is_the_model.
